@@ -4,6 +4,9 @@ CONSTANTS
   MaxTargets = 2
   MaxCorr = 1
   CorrKinds = {"sigFlip", "keySubst", "sigSwap", "wrongRoot"}
+  Shapes = {"longTail"}
+  MaxShape = 1
+  ShapeWithCorr = FALSE
   TweakChoice = {"plain"}
 INVARIANT Agree
 INVARIANT AgreeJudge
